@@ -52,15 +52,16 @@ Proof.
   - intros ix. apply grows_enc.
 Qed.
 
-Fixpoint clen (e : node) : Z :=
+(* an upper bound on the instructions emitted *)
+Fixpoint clen (e : node) : nat :=
   match e with
   | NBin _ l r => clen l + clen r + 4
   | NUn _ t => clen t + 4
+  | NList l => fold_right (fun x acc => clen x + 1 + acc) 0 l
+  | NIndexAt a i => clen a + clen i + 1
+  | NIndexFromTo a f t => clen a + clen f + clen t + 1
   | _ => 0
-  end.
-
-Lemma clen_nonneg e : 0 <= clen e.
-Proof. induction e; cbn [clen]; lia. Qed.
+  end%nat.
 
 Lemma binop_grows opname compL compR a b c sel fl kl kr :
   0 <= kl -> 0 <= kr ->
@@ -88,25 +89,41 @@ Proof.
       * intros temp2. apply grows_enc.
 Qed.
 
-Lemma comp_grows : forall e, pure e = true -> forall sel fl, grows (clen e) (comp e sel fl).
+Lemma list_go_grows fl k ix : forall l,
+  Forall (fun x => forall sel fl, grows (Z.of_nat (clen x)) (comp x sel fl)) l ->
+  forall i, grows (Z.of_nat (fold_right (fun x acc => clen x + 1 + acc)%nat 0%nat l)) (list_go fl k ix l i).
 Proof.
-  induction e; intros Hp sel fl; try discriminate Hp; cbn [comp clen].
-  - apply const_grows.
-  - apply const_grows.
-  - apply const_grows.
-  - apply const_grows.
-  - apply name_grows.
-  - cbn [pure] in Hp. destruct (binop_opcode op); [|discriminate]. apply andb_prop in Hp. destruct Hp as [H1 H2].
-    apply binop_grows; [apply clen_nonneg|apply clen_nonneg|exact (IHe1 H1)|exact (IHe2 H2)].
-  - cbn [pure] in Hp. apply andb_prop in Hp. destruct Hp as [_ H1].
+  induction l as [|x l IH]; intros HF i; cbn [list_go fold_right].
+  - apply grows_ret.
+  - inversion HF as [|x' l' Hx Hl]; subst. apply grows_if.
+    + apply (grows_le (Z.of_nat (fold_right (fun x acc => clen x + 1 + acc)%nat 0%nat l))); [lia|apply IH; exact Hl].
+    + replace (Z.of_nat (clen x + 1 + fold_right (fun x acc => clen x + 1 + acc)%nat 0%nat l))
+        with (Z.of_nat (clen x) + (0 + (1 + Z.of_nat (fold_right (fun x acc => clen x + 1 + acc)%nat 0%nat l)))) by lia.
+      apply grows_bind; [apply Hx|]. intros i0. apply grows_bind.
+      * apply grows_if; apply grows_enc.
+      * intros w. apply grows_bind; [apply grows_emit|]. intros _. apply IH. exact Hl.
+Qed.
+
+Lemma comp_grows : forall e, pure e = true -> forall sel fl, grows (Z.of_nat (clen e)) (comp e sel fl).
+Proof.
+  apply (pure_induction (fun e => forall sel fl, grows (Z.of_nat (clen e)) (comp e sel fl))).
+  - intros i sel fl. apply const_grows.
+  - intros f _ sel fl. apply const_grows.
+  - intros s sel fl. apply const_grows.
+  - intros b sel fl. apply const_grows.
+  - intros g sel fl. apply name_grows.
+  - intros op c l r _ _ _ IH1 IH2 sel fl. cbn [comp clen].
+    replace (Z.of_nat (clen l + clen r + 4)) with (Z.of_nat (clen l) + Z.of_nat (clen r) + 4) by lia.
+    apply binop_grows; [lia|lia|exact IH1|exact IH2].
+  - intros op t _ _ IH sel fl. cbn [comp clen].
+    replace (Z.of_nat (clen t + 4)) with (Z.of_nat (clen t) + 4) by lia.
     destruct (String.eqb op "-").
-    + replace (clen e + 4) with (0 + clen e + 4) by lia.
-      apply binop_grows; [lia|apply clen_nonneg| |exact (IHe H1)].
-      intros sel' fl'. apply const_grows.
+    + replace (Z.of_nat (clen t) + 4) with (0 + Z.of_nat (clen t) + 4) by lia.
+      apply binop_grows; [lia|lia| |exact IH]. intros sel' fl'. apply const_grows.
     + destruct (if String.eqb op "#" then Some LEN else if String.eqb op "!" then Some NOT
                 else if String.eqb op "~" then Some FLIP else None); [|apply grows_abort].
-      apply (grows_le (clen e + (1 + (1 + (1 + 0))))); [lia|].
-      apply grows_bind; [apply (IHe H1)|]. intros target.
+      apply (grows_le (Z.of_nat (clen t) + (1 + (1 + (1 + 0))))); [lia|].
+      apply grows_bind; [apply IH|]. intros target.
       apply grows_bind.
       * apply grows_if.
         -- replace 1 with (0 + (1 + 0)) by lia. apply grows_bind; [apply grows_enc|]. intros w1.
@@ -118,18 +135,42 @@ Proof.
            ++ replace 1 with (1 + 0) by lia. apply grows_bind; [apply grows_emit|]. intros _. apply grows_ret.
            ++ apply (grows_le 0); [lia|apply grows_ret].
         -- intros temp2. apply grows_enc.
+  - intros l _ HF sel fl. rewrite comp_list_unfold. cbv zeta. cbn [clen].
+    replace (Z.of_nat (fold_right (fun x acc => clen x + 1 + acc)%nat 0%nat l))
+      with (0 + (Z.of_nat (fold_right (fun x acc => clen x + 1 + acc)%nat 0%nat l) + 0)) by lia.
+    apply grows_bind; [apply grows_add_ds|]. intros ix. apply grows_if.
+    + apply (grows_le 0); [lia|apply grows_enc].
+    + apply grows_bind; [apply list_go_grows; exact HF|]. intros _. apply grows_enc.
+  - intros a i _ _ IHa IHi sel fl. cbn [comp clen].
+    replace (Z.of_nat (clen a + clen i + 1)) with (Z.of_nat (clen a) + (Z.of_nat (clen i) + (1 + 0))) by lia.
+    apply grows_bind; [apply IHa|]. intros wa. apply grows_bind; [apply IHi|]. intros wi.
+    apply grows_bind; [apply grows_emit|]. intros _. apply grows_enc.
+  - intros a f t _ _ _ IHa IHf IHt sel fl. cbn [comp clen].
+    replace (Z.of_nat (clen a + clen f + clen t + 1))
+      with (Z.of_nat (clen a) + (Z.of_nat (clen f) + (Z.of_nat (clen t) + (1 + 0)))) by lia.
+    apply grows_bind; [apply IHa|]. intros wa. apply grows_bind; [apply IHf|]. intros wf.
+    apply grows_bind; [apply IHt|]. intros wt.
+    apply grows_bind; [apply grows_emit|]. intros _. apply grows_enc.
 Qed.
 
-Fixpoint esize (e : node) : Z :=
+(* the size of the text of an expression *)
+Fixpoint esize (e : node) : nat :=
   match e with
   | NBin _ l r => esize l + esize r + 1
   | NUn _ t => esize t + 1
   | NAssign _ t => esize t + 1
+  | NList l => S (fold_right (fun x acc => esize x + acc) 0 l)
+  | NIndexAt a i => esize a + esize i + 1
+  | NIndexFromTo a f t => esize a + esize f + esize t + 1
   | _ => 1
-  end.
+  end%nat.
 
-Lemma esize_pos e : 1 <= esize e.
-Proof. induction e; cbn [esize]; lia. Qed.
+Lemma esize_pos e : (1 <= esize e)%nat.
+Proof. destruct e; cbn [esize]; lia. Qed.
 
-Lemma clen_le_size e : clen e <= 4 * esize e - 4.
-Proof. induction e; cbn [clen esize]; try lia. pose proof (esize_pos e2). lia. Qed.
+Lemma clen_le_size : forall e, pure e = true -> (clen e + 4 <= 4 * esize e)%nat.
+Proof.
+  apply (pure_induction (fun e => (clen e + 4 <= 4 * esize e)%nat)); try (intros; cbn [clen esize]; lia).
+  intros l _ HF. cbn [clen esize].
+  induction HF as [|x r Hx Hr IH]; cbn [fold_right]; lia.
+Qed.
